@@ -516,5 +516,28 @@ def check(mod, prop, tier, seed, no_build=False):
     return 1 if nviol else 0
 
 
+def _cover_main():
+    """VERIF_COVER=<file>: record which functions of the library are entered during the run (generator-quality instrument, not part of
+    any registered command): appends "module:qualname" lines to <file>."""
+    import threading
+    seen = set()
+    src = os.path.join(os.environ.get("VERIF_REPO", "/repo"), "bip_utils")
+
+    def prof(frame, event, arg):
+        if event == "call":
+            co = frame.f_code
+            if co.co_filename.startswith(src):
+                seen.add((co.co_filename[len(src) + 1:], getattr(co, "co_qualname", co.co_name)))
+    sys.setprofile(prof)
+    threading.setprofile(prof)
+    try:
+        return main()
+    finally:
+        sys.setprofile(None)
+        with open(os.environ["VERIF_COVER"], "a") as f:
+            for fn, q in sorted(seen):
+                f.write("%s:%s\n" % (fn, q))
+
+
 if __name__ == "__main__":
-    sys.exit(main())
+    sys.exit(_cover_main() if os.environ.get("VERIF_COVER") else main())
